@@ -28,3 +28,8 @@ impl Format {
         (bytes[..text::START.len()] == text::START).then_some(Self::Text)
     }
 }
+
+// Verification hook (inert unless built by `cargo kani`): harnesses for the private items of this module.
+#[cfg(kani)]
+#[path = "/verif/kani/incrate/h_spectrum_io.rs"]
+mod verif_kani;
